@@ -43,7 +43,47 @@ T = {
  "C20-a": ("C20", "mpi_polling.cpp poll_multithreaded: the callback lookup after MPI_Testsome drops the chunk offset",
            "more than 32 requests in the polling vector and a completion found beyond the first chunk: an unrelated receive is signalled before its transfer, the completed request's sender never completes",
            "the first C20 workload had at most 48 requests and rarely more than a few outstanding at once; a hold mode (the simulated transport completes nothing until a whole batch of up to 128 requests is posted) and a drawn polling size were added"),
- "C12-a": ("C12", "", "", ""),
+ "C12-a": ("C12", "thread_data::rebind_base no longer clears requested_interrupt_",
+           "an interruption request that is never delivered (interrupt() after the body's last interruption point), recycling of that thread object, a new task on the same queue that reuses it: it starts with interruption_requested() == true",
+           "missed by the first C12 workload (its 'dirt' was interruption disabled and exit callbacks only); caught after 'an undelivered interruption request' was added as dirt"),
+ "C01-b": ("C01", "deque::pop_left/pop_right proceed while a push at the other end is still being linked (status test '== stable' weakened)",
+           "LIFO/ABP policies, >= 2 workers, a yield re-queue (push_right) onto a queue with one task racing with a steal (pop_left) inside the few-instruction window between the anchor CAS and stabilize_right: the pushed task becomes unreachable (dropped) or a worker crashes",
+           "also run against C17 (the deque is its subject): caught by both"),
+ "C02-b": ("C02", "scheduling_loop.hpp pending_boost branch: the worker skips re-queuing when the state was changed meanwhile",
+           "a waiter registered while it *yields* (every timed wait) and a wake-up whose set_thread_state lands between the worker's store of pending_boost and its set_state(pending): the task is in no queue any more",
+           "missed by the first C02 workload (all waits untimed: the target was always active or suspended); caught after timed condition-variable and semaphore waits were added as mechanisms"),
+ "C03-b": ("C03", "drop_operation_state.hpp set_error: the error is bound by reference instead of copied before the predecessor's operation state is destroyed",
+           "a pipeline with drop_operation_state() completing with an error that the predecessor stores (when_all, split with the last reference, ensure_started that finished early): the receiver gets a dangling exception_ptr",
+           "the first C03 shapes used drop_operation_state only after then(); shapes with storing predecessors and an error-object ledger (use after destruction, leak) were added: caught (as a crash when the dangling exception is rethrown, or by the ledger)"),
+ "C04-b": ("C04", "async_rw_mutex operation_state::continuation builds the access wrapper from a copy of the shared state pointer instead of moving it",
+           "an operation state that outlives its released wrapper while a later access of the same mutex is awaited (hand-held operation states, several accesses in one when_all): the next access is never granted", ""),
+ "C05-b": ("C05", "runtime::wait(): thread_manager wait and wait_finalize swapped",
+           "stop() entered before finalize() on an idle runtime; a non-pika thread then submits work and calls finalize(): shutdown starts while that work runs, children it spawns later land on queues of workers that already left: stop() hangs / returns early",
+           "missed by the first C05 histories (finalize always preceded stop on the same thread); caught after 'stop entered before finalize, late work and finalize from an OS thread' was added"),
+ "C06-b": ("C06", "mutex::unlock clears owner_id_ before the ownership test",
+           "misuse sequence: a non-owner calls unlock() (still reported as an error) while the owner is inside its critical section: the mutex is free, a third task acquires it, the owner's own unlock is rejected", ""),
+ "C07-b": ("C07", "condition_variable::wait_until(pred): returns false on timeout without re-evaluating the predicate",
+           "a timed predicate wait that times out while the predicate has become true (second waiter not chosen by notify_one, or deadline expiry racing with the notifier): reports false with the predicate true", ""),
+ "C08-b": ("C08", "counting_semaphore::wait: 'while (value_ < count)' became 'if'",
+           "blocked acquirer, release(1), and a third party that takes the permit (try_acquire / barging acquire) before the woken waiter runs: two acquisitions for one permit, counter negative, a later permit lost", ""),
+ "C09-b": ("C09", "call_once: event_.reset() moved from the start of an attempt into the catch block (set(); reset();)",
+           "a throwing callable while other callers are already blocked in call_once, and no later new caller on that flag: the woken waiters find the event reset again and sleep forever",
+           "missed by the first call_once workload (a thrower always retried and thereby rescued the waiters); caught after callers that give up after their own throwing attempt were added"),
+ "C10-b": ("C10", "execution_agent::do_yield records the global instead of the pool-local worker number as last worker",
+           "a hinted task that suspends, on a static or static-priority pool that is not the first pool and whose first global worker index is not a multiple of its size: after the suspension it runs on another worker of that pool", ""),
+ "C11-b": ("C11", "thread_pool_scheduler_bulk.hpp: tasks_remaining counts only non-empty queues, empty remote queues no longer call finish(), but the local worker always does",
+           "0 < n < number of workers and the predecessor completing on a worker whose partition is empty: the receiver is signalled while a chunk is still running", ""),
+ "C13-b": ("C13", "thread::thread_function_nullary: run_thread_exit_callbacks() moved inside the try block",
+           "a target that ends through thread_interrupted while a joiner is already registered (join before the target terminated): the exit callbacks never run, join() never returns", ""),
+ "C14-b": ("C14", "stop_state::lock(): the desired value of the CAS is computed once, before the retry loop",
+           ">= 2 threads: one in ~stop_callback/lock(), another changing the state word (request_stop, token/source copy or destruction) between its load and its CAS: the stale word is written back: stop request lost, two winners, wrong stop_possible", ""),
+ "C17-b": ("C17", "deque::pop_left/pop_right no longer help a push in flight at the opposite end (same mechanism as C01-b, produced independently)",
+           "a push at one end racing with as many pops at the other end as there are elements (typically one): element lost, pop fails on a non-empty quiescent deque, or a later push crashes", ""),
+ "C19-b": ("C19", "local_priority_queue_scheduler::wait_or_add_new: the early exit for a non-running worker moved before the conversion of its own staged tasks",
+           "a suspend request reaching a worker while staged tasks sit on its queue (suspend racing with submission): the worker can neither convert them nor go to sleep: suspend never returns, the tasks never run (static-priority, or whole-pool suspend)", ""),
+ "C20-b": ("C20", "poll_singlethreaded: the global activity count is decremented before the request's callback is invoked",
+           "a real dedicated polling pool, completion mode without request_inline, continuation handler with inline completion, and the request being the last outstanding activity: pika::wait() returns while the continuation still runs",
+           "missed at first for a harness reason: the simulated MPI world reported one rank, for which pika never creates the polling pool (the probe 'mpi_pool' only reflected the request). The transport now reports two ranks when the pool is requested and the workload asserts that the pool exists: caught"),
 }
 def grep(path, pat):
     try:
@@ -61,7 +101,7 @@ for name, (prop, change, needs, note) in sorted(T.items()):
     classes = [l[:260] for l in grep(res, r"^violation class")]
     summary = grep(res, r"^%s quick:" % prop)
     status = grep(res, r"selftest: check exit status")
-    ident = name.split("-")[0]
+    ident = name.split("-")[0] + ("b" if name.endswith("-b") else "")
     conf = R + "/%s.confirm.txt" % ident
     cl = grep(conf, r"^exit=")
     meta = {
